@@ -164,3 +164,47 @@ Theorem nan_not_antisymmetric :
   vals_cmp F0 [SV 102 (VF 2143289344)] [SV 102 (VF 0)] 1 1 = Some (-1) /\
   vals_cmp F0 [SV 102 (VF 0)] [SV 102 (VF 2143289344)] 1 1 = Some (-1).
 Proof. split; vm_compute; reflexivity. Qed.
+
+(* The laws without the side condition [all_nonan] are false of the CURRENT
+   functions (and of the code: replayed, corpus/C16/nan.txt): a list holding a
+   NaN is not equal to itself (cmp -1, eq false), it is "smaller" than [0.0] in
+   both directions, 0.0 < NaN < 0.0 is not transitive, and "3 x NaN" does not
+   compare equal to NaN NaN NaN.  Finding class nan-in-list. *)
+Definition nanf : list slot := [SV 102 (VF 2143289344)].      (* f:7fc00000 *)
+Definition zerof : list slot := [SV 102 (VF 0)].
+
+Theorem nan_refuted : forall F,
+  exists a b a3 a3' va vb v3,
+    denote F a va /\ denote F b vb /\ denote F a3 v3 /\ denote F a3' v3 /\
+    all_nonan vb /\ ~ all_nonan va /\
+    (* not reflexive *)
+    vals_cmp F a a (Zlength a) (Zlength a) = Some (-1) /\
+    vals_eq F a a (Zlength a) (Zlength a) = Some false /\
+    (* not antisymmetric *)
+    vals_cmp F a b (Zlength a) (Zlength b) = Some (-1) /\
+    vals_cmp F b a (Zlength b) (Zlength a) = Some (-1) /\
+    (* not transitive: b < a, a < b, but b = b *)
+    vals_cmp F b b (Zlength b) (Zlength b) = Some 0 /\
+    (* not blind to compression: the two ways of writing NaN NaN NaN differ *)
+    vals_cmp F a3 a3' (Zlength a3) (Zlength a3') = Some (-1) /\
+    vals_eq F a3 a3' (Zlength a3) (Zlength a3') = Some false.
+Proof.
+  intro F.
+  exists nanf, zerof, (SRep 3 0 :: nanf), (nanf ++ nanf ++ nanf),
+         [Val 102 (VF 2143289344)], [Val 102 (VF 0)], (repeat (Val 102 (VF 2143289344)) 3).
+  split; [apply den_val; constructor|].
+  split; [apply den_val; constructor|].
+  split; [apply (D_rep F 3 nanf (Val 102 (VF 2143289344)) [] []); [discriminate|repeat constructor|constructor]|].
+  split; [repeat (apply den_val; [constructor|]); constructor|].
+  split; [reflexivity|].
+  split; [intro H; discriminate H|].
+  repeat split; vm_compute; reflexivity.
+Qed.
+
+(* a NaN inside an array, and a double NaN: same failure *)
+Theorem nan_refuted_array_double : forall F,
+  let a := [SArr 102 1; SV 102 (VF 4290772993)] in
+  let d := [SV 100 (VD 9221120237041090560)] in
+  vals_cmp F a a 2 2 = Some (-1) /\ vals_eq F a a 2 2 = Some false /\
+  vals_cmp F d d 1 1 = Some (-1) /\ vals_eq F d d 1 1 = Some false.
+Proof. intro F. repeat split; vm_compute; reflexivity. Qed.
